@@ -318,6 +318,18 @@ def gen_cases(rep):
             o2 = opts if (opts or fmt != "iso9660") else b"iso9660:rockridge=strict"
             line = vfmt([0, 1, fmt.encode(), o2, b"", 0, -1, [to_ent(d) for d in es], 0, -1, 0])
             out.append((line, dict(fmt=fmt, opts=o2.decode(), flt="", fcode=0, bpb=0, bilb=-1, loc=1, entries=es, model=False, round=1)))
+        # directed: members with and without owner names side by side (writers that factor common values out)
+        if spec.get("ugmax"):
+            for opts in spec.get("options", [b""]):
+                es = []
+                for j, (un, gn) in enumerate([(None, None), (b"alice", b"staff"), (b"alice", b"staff"), (None, b"staff"), (b"alice", None),
+                                              (None, None), (b"bob", b"wheel")]):
+                    d = dict(mode=REG | 0o644, nlink=1, path=b"own%d" % j, uid=1000, gid=100, mtime=(10**9 + j, 0), size=1, body=b"x", chunks=())
+                    if un: d["uname"] = un
+                    if gn: d["gname"] = gn
+                    es.append(d)
+                line = vfmt([0, 1, fmt.encode(), opts, b"", 0, -1, [to_ent(d) for d in es], 0, -1, 0])
+                out.append((line, dict(fmt=fmt, opts=opts.decode(), flt="", fcode=0, bpb=0, bilb=-1, loc=1, entries=es, model=False, round=1)))
         # directed: every kind of sibling family (names the writer's duplicate resolver has to rename), in the root
         # and in a sub-directory, under every option set of the directory-oriented formats
         if spec["names"] == "tree":
@@ -329,6 +341,11 @@ def gen_cases(rep):
                         for pre in (b"", b"sub/"):
                             body = b"body of %d\n" % j
                             es.append(dict(mode=REG | 0o644, nlink=1, path=pre + nm, uid=0, gid=0, mtime=(10**9 + j, 0), size=len(body), body=body, chunks=()))
+                    # ... and as directories with a member each (formats that describe directories in lines of their own)
+                    es.append(dict(mode=DIR | 0o755, nlink=1, path=b"dirs", uid=0, gid=0, mtime=(10**9, 0), size=0, body=b"", chunks=()))
+                    for j, nm in enumerate(fam):
+                        es.append(dict(mode=DIR | 0o755, nlink=1, path=b"dirs/" + nm, uid=0, gid=0, mtime=(10**9 + j, 0), size=0, body=b"", chunks=()))
+                        es.append(dict(mode=REG | 0o644, nlink=1, path=b"dirs/" + nm + b"/f", uid=0, gid=0, mtime=(10**9 + j, 0), size=2, body=b"f\n", chunks=()))
                     line = vfmt([0, 1, fmt.encode(), opts, b"", 0, -1, [to_ent(d) for d in es], 0, -1, 0])
                     out.append((line, dict(fmt=fmt, opts=opts.decode(), flt="", fcode=0, bpb=0, bilb=-1, loc=1, entries=es, model=False, round=1)))
     return out
